@@ -206,6 +206,24 @@ def run(ctx: Any, prog: Program) -> None:
                             bad = (n, U(el))
             ctx.check('C10.B8', bad is None, bsp, bad[0] if bad else fn, (f'{fname} assigns {bad[1]}: rebuilding a view that was merely looked at changes the saved header' if bad else 'no header state written'),
                       func=f'BSP.{fname}', text=f'{fname} leaves header state alone' if bad is None else f'{fname} writes {bad[1]}')
+    # ---- B11: the writers keep nothing on the BSP object from one save to the next ---------------------------------------------------------------
+    # save() drops every parsed view, so the next access parses fresh lists.  A writer (or a helper it calls) that parks something computed
+    # from the views on `self` - lookup closures over self.planes, an index table - serves the NEXT save from the previous generation of objects.
+    ctx.rule('C10.B11', 'lump writers store nothing computed from the parsed views on the BSP object', floor=20)
+    view_names = {v.lstrip('_') for v in views} | set(views)
+    for v, args in views.items():
+        wr = ms['_lmp_write_' + v.lstrip('_')]
+        for fname, fn in [('_lmp_write_' + v, wr)] + helper_closure(wr):
+            memo = None
+            for n in walk_no_nested(fn):
+                tgts = n.targets if isinstance(n, ast.Assign) else ([n.target] if isinstance(n, (ast.AugAssign, ast.AnnAssign)) else [])
+                val = getattr(n, 'value', None)
+                for t in tgts:
+                    if isinstance(t, ast.Attribute) and dotted(t.value) == 'self' and val is not None \
+                            and any(isinstance(x, ast.Attribute) and dotted(x.value) == 'self' and x.attr.lstrip('_') in view_names for x in ast.walk(val)):
+                        memo = (n, t.attr)
+            ctx.check('C10.B11', memo is None, bsp, memo[0] if memo else fn, (f'{fname} stores `self.{memo[1]}` = `{U(memo[0].value)[:60]}`, computed from parsed views: it outlives the save, and after the views were '
+                      'dropped and parsed again the next save is served from the old objects (indexes past the end of the rebuilt lumps)' if memo else 'no memo'), func=f'BSP.{fname}', text=f'{fname} keeps no memo of the views')
     # ---- B9 --------------------------------------------------------------------------------------------
     re_ents = ms['_lmp_read_ents']
     sets_sep = [n for n in ast.walk(re_ents) if isinstance(n, ast.Assign) and dotted(n.targets[0]) == 'self.out_comma_sep']
@@ -663,6 +681,7 @@ def run(ctx: Any, prog: Program) -> None:
 
 
 MUTANTS = [
+    {'id': 'face_lookup_closures_memoised_on_self', 'file': 'bsp.py', 'find': "        add_texinfo = find_or_insert(self.texinfo)\n        add_plane = find_or_insert(self.planes)\n", 'replace': "        if getattr(self, '_face_finders', None) is None:\n            self._face_finders = (find_or_insert(self.texinfo), find_or_insert(self.planes))\n        add_texinfo, add_plane = self._face_finders\n", 'expect': 'C10.B11'},
     {'id': 'get_swaps_raw_data_out_before_reading', 'file': 'bsp.py', 'find': "            data = instance.lumps[self.lump].data\n            LOGGER.debug('Load game lump {} ({} bytes)', self.lump, len(data))", 'replace': "            raw = instance.lumps[self.lump]\n            data, raw.data = raw.data, b''\n            LOGGER.debug('Load game lump {} ({} bytes)', self.lump, len(data))", 'expect': 'C10.B6'},
     {'id': 'lzma_decoder_split_swapped', 'file': 'binformat.py', 'find': "    pb = props // 5\n    lp = props % 5\n", 'replace': "    lp = props // 5\n    pb = props % 5\n", 'expect': 'C10.B10'},
     {'id': 'ok_lzma_decoder_split_divmod', 'file': 'binformat.py', 'find': "    lc = props % 9\n    props //= 9\n    pb = props // 5\n    lp = props % 5\n", 'replace': "    rest, lc = divmod(props, 9)\n    pb, lp = divmod(rest, 5)\n", 'expect': None},
